@@ -392,6 +392,21 @@ pub broadcast axiom fn axiom_parts_single(id: Seq<char>)
     requires !str_contains_multi(id),
     ensures #[trigger] parts(id) == set![id];
 
+/// R12: `id.split(":::")` - its items are exactly parts(id) (this defines `parts`)
+#[verifier::external_body]
+fn verif_split_multi<'a>(s: &'a str) -> (r: std::vec::IntoIter<&'a str>)
+    ensures
+        r.obeys_prophetic_iter_laws(),
+        r.decrease().is_some(),
+        forall|p: Seq<char>| #![trigger parts(s@).contains(p)] parts(s@).contains(p)
+            <==> exists|k: int| 0 <= k < r.remaining().len() && (#[trigger] r.remaining()[k])@ == p,
+{
+    unimplemented!()
+}
+
+pub assume_specification[ <String as PartialEq<str>>::ne ](a: &String, b: &str) -> (r: bool)
+    ensures r == (a@ != b@);
+
 #[verifier::external_body]
 pub struct VerifPartsMap {
     _p: core::marker::PhantomData<()>,
